@@ -217,6 +217,16 @@ func genValues(rng *rand.Rand, s *SeriesData) {
 	case "counter":
 		v := float64(rng.IntN(1000))
 		half := rng.IntN(2) == 0
+		// a freshly started target: the counter begins near zero, so that the windows over
+		// its first samples extrapolate back to the counter's zero point
+		if rng.IntN(3) == 0 {
+			v = float64(rng.IntN(12))
+			if half {
+				v /= 2
+			}
+			s.Shape = append(s.Shape, "counter-starts-near-zero")
+		}
+		restartAfterGap := rng.IntN(2) == 0
 		resets := 0
 		if rng.IntN(2) == 0 {
 			resets = 1 + rng.IntN(2)
@@ -230,7 +240,14 @@ func genValues(rng *rand.Rand, s *SeriesData) {
 			if isStale(s.V[i]) {
 				continue
 			}
-			if resetAt[i] {
+			if restartAfterGap && i > 0 && s.T[i]-s.T[i-1] > lookbackMs {
+				// the target came back after an outage longer than any window: a restarted counter
+				v = float64(rng.IntN(12))
+				if half {
+					v /= 2
+				}
+				s.Shape = append(s.Shape, "counter-restarts-after-gap")
+			} else if resetAt[i] {
 				v = float64(rng.IntN(5))
 			} else {
 				inc := float64(rng.IntN(21))
